@@ -23,6 +23,20 @@ Theorem C01_leader_backed : forall s g h v d, en_role s <> Leader ->
 Proof. exact leader_backed. Qed.
 Print Assumptions C01_leader_backed.
 
+(* the electorate of a vote round (Election.electorate, tied to GrpcTransport::send_vote_requests by the probe
+   vote_round) is every listed voter except the candidate, each once, reachable or not ... *)
+Theorem C01_electorate_is_all_other_voters : forall me vs x,
+  In x (map fst (electorate me [] vs)) <-> In x (map fst vs) /\ x <> me.
+Proof. intros me vs x. rewrite (electorate_spec me vs [] x). cbn [In]. tauto. Qed.
+Print Assumptions C01_electorate_is_all_other_voters.
+
+(* ... and a round is won only with grants that, with the candidate's own vote, are a strict majority of it *)
+Theorem C01_round_won_needs_majority_of_all_voters : forall me t vs,
+  round_won me t vs = 1 ->
+  N.of_nat (length (electorate me [] vs)) + 1 < 2 * (round_granted (electorate me [] vs) + 1).
+Proof. exact round_won_needs_majority_of_all_voters. Qed.
+Print Assumptions C01_round_won_needs_majority_of_all_voters.
+
 (* the abstract Raft system: in every reachable state, one leader per term *)
 From DE Require Import AbstractRaft proofs.AR_election.
 Theorem C01_election_safety : forall nodes s, reach nodes s ->
